@@ -39,6 +39,8 @@ CONSTANTS
                 \*   "strict-count-zero"  a strict array built with Set is written with count 0
                 \*   "keyed-writer"       the writer uses the keyed strict layout, the reader the specification's
                 \*   "skip-unknown"       an unsupported marker is skipped as a 1-byte value
+                \*   "marker-by-constructor" (Amf0Live.tla) a container's marker byte is a field that only the New*
+                \*                        constructors fill in: a zero-value container is written with marker 0
                 \*   "marshal-cache"      (Amf0Live.tla) a container remembers the bytes of its last marshal and forgets
                 \*                        them only when Set is called on itself, not when a value below it changes
   Scalars,      \* builder alphabet: scalar values
